@@ -113,7 +113,23 @@ CHECKS.update({
              "name is a listed known finding."),
 })
 
+CHECKS.update({
+    "C13": dict(
+        engine="hx_index", category="exploration", design_ref="DESIGN.md section 4 C13",
+        technique="runtime monitoring: list-of-records reference model in lock-step with lzma_index operation histories (queries, iterators kept alive across append/cat, limits, encode/decode); file-info decoder under many read plans with seek-bound monitor; locate+Block-decode random-access oracle against the plaintext",
+        text="Random lzma_index_* histories (sizes up to the VLI and Backward Size limits, group-boundary bursts, three "
+             "long-lived iterators) run on the real objects and on a list-of-records model; every query, iterator field and "
+             "success/failure is compared and failed operations must change nothing. Valid multi-Stream files are read by "
+             "the file-info decoder under 8 read plans each (result must not depend on the plan, no seek beyond the file, "
+             "memlimit-raise loop must converge) and random offsets are located and decoded at the reported Block offsets "
+             "and compared with the plaintext.",
+        note="Histories, files and offsets are sampled. Files come from liblzma's own encoders; the independent parse of the "
+             "same files is C02/C03's. xz --list figures are compared in the thorough tier only when the CLI part is built."),
+})
+
 ENGINES += [
+    {"name": "hx_index", "path": "harness/hx_index.c", "serves_properties": ["C13"],
+     "kind_free_text": "lzma_index reference-model monitor and file-info/random-access monitor"},
     {"name": "hx_proto", "path": "harness/hx_proto.c", "serves_properties": ["C11"],
      "kind_free_text": "lock-step reference-model monitor of the lzma_code wrapper"},
     {"name": "hx_flush", "path": "harness/hx_flush.c", "serves_properties": ["C12"],
